@@ -111,10 +111,14 @@ func Assume(c bool) {
 	}
 }
 
+type assertStop struct{}
+
+// Assert records the first failing assertion and stops the harness (the engine also stops there).
 func Assert(c bool, what string) {
 	if !c {
 		Failed = append(Failed, what)
 		fmt.Printf("VF-ASSERT-FAIL %s\n", what)
+		panic(assertStop{})
 	}
 }
 
@@ -127,6 +131,9 @@ func ExpectPanic(f func()) (panicked bool) {
 	defer func() {
 		if r := recover(); r != nil {
 			if _, ok := r.(assumeFailed); ok {
+				panic(r)
+			}
+			if _, ok := r.(assertStop); ok {
 				panic(r)
 			}
 			panicked = true
@@ -170,6 +177,9 @@ func RunNative(h func()) (failed []string, panicMsg string) {
 		if r := recover(); r != nil {
 			if _, ok := r.(assumeFailed); ok {
 				panicMsg = "ASSUME-FAILED"
+				return
+			}
+			if _, ok := r.(assertStop); ok {
 				return
 			}
 			panicMsg = fmt.Sprintf("%v", r)
